@@ -303,7 +303,19 @@ func (c *fsCache) initialize(appname string) error {
 	}
 	c.fn = fragmentingFileNamer()
 	c.fnk = fragmentingFileNameKeyer()
-	c.dw = dirWalkerFunc(filepath.WalkDir)
+	// The directory is walked through the root handle, component by component,
+	// not by complete path names: those exceed PATH_MAX once a long key is
+	// spread over fragment directories (then every listing failed, also after
+	// the key was deleted), and the cache directory may be a symbolic link.
+	root := c.root
+	c.dw = dirWalkerFunc(func(dirname string, fn fs.WalkDirFunc) error {
+		return fs.WalkDir(root.FS(), ".", func(p string, d fs.DirEntry, err error) error {
+			if p == "." {
+				return fn(dirname, d, err)
+			}
+			return fn(dirname+string(os.PathSeparator)+filepath.FromSlash(p), d, err)
+		})
+	})
 	c.timeout = cmp.Or(c.timeout, defaultTimeout)
 
 	return nil
